@@ -20,6 +20,7 @@ import Golib.HLL.EstSpec
 import Golib.HLL.Abstract
 import Golib.HLL.Heap
 import Golib.HLL.Murmur
+import Golib.HLL.Hist
 
 namespace C14
 open HLL Prim
@@ -495,6 +496,83 @@ theorem size_test_is_precision_test (p q : Nat) (hp : PrecOK p) (hq : PrecOK q) 
     exact wordCount_injective p (by have := hp.hi; omega) q (by have := hq.hi; omega) hp.lo hq.lo h
   · intro h; subst h; rw [ha.size, hb.size]
 
+/-! ### fourth round: the range of register values, the sum grouped by value, in-place self-merge -/
+
+/-- the registers of a counter hold values 0 … 33 − p, and the top value occurs: item 0 hashes to 0,
+    whose tail after the index bits is all zero (so a table indexed by register value needs 34 − p
+    entries) -/
+theorem register_value_range (p : Nat) (hp : PrecOK p) :
+    (∀ hs r, (∀ h ∈ hs, Hashed h) → regGet (stateOf p hs) r ≤ 33 - p) ∧
+    murmurLong 0 = 0 ∧ murmur32 0 = 0 ∧ regGet (stateOf p [murmurLong 0]) 0 = 33 - p := by
+  have hp1 := hp.lo
+  have hp2 := hp.hi
+  refine ⟨?_, by decide, by decide, ?_⟩
+  · intro hs r hh
+    rw [regGet_stateOf p hs r hp hh, supRank_le_iff]
+    intro h _ _
+    exact rank_le p h hp1 (by omega)
+  · have h0 : murmurLong 0 = 0 := by decide
+    rw [h0, regGet_stateOf p [0] 0 hp (by intro h hm; simp at hm; subst hm; show (0:Nat) < 4294967296; decide)]
+    have hi : idx p 0 = 0 := by simp [idx]
+    have hr : rank p 0 = 32 - p + 1 := rank_of_rest_zero p 0 hp1 (by omega) (by simp [rest])
+    rw [supRank_cons, supRank_nil, if_pos hi, hr]
+    omega
+
+/-- the sum `Cardinality` computes, grouped by register value, over the values 0 … 33 − p -/
+theorem register_sum_by_value (p : Nat) (hp : PrecOK p) (hs : List Nat) (hh : ∀ h ∈ hs, Hashed h) :
+    regSum (regs p (stateOf p hs)) = histSum (33 - p) (regs p (stateOf p hs)) := by
+  apply regSum_by_value
+  intro v hv
+  simp only [regs, List.mem_map] at hv
+  obtain ⟨r, _, rfl⟩ := hv
+  exact (register_value_range p hp).1 hs r hh
+
+/-- … and one entry fewer is not enough: after `Offer(0)` the value 33 − p is present -/
+theorem register_sum_by_value_needs_top :
+    regSum (regs 4 (stateOf 4 [murmurLong 0])) ≠ histSum (32 - 4) (regs 4 (stateOf 4 [murmurLong 0])) := by
+  decide +kernel
+
+/-- `a.AddAll(a)` changes no counter's bytes (in-place merge is idempotent) -/
+theorem addAll_self_noop (w : World) (i k : Nat) (hw : WInv w) :
+    bytesAt (step w (.addAll i i)) k = bytesAt w k ∧ (step w (.addAll i i)).length = w.length := by
+  cases hi : w[i]? with
+  | none => simp [step, stepWith, hi]
+  | some a =>
+    have ai := hw a (mem_of_getElem? hi)
+    have hc : merge a.ws a.ws = a.ws := by
+      apply merge_idem
+      rw [ai.state]
+      exact (stateOf_wf a.p a.items ai.prec).canon
+    have hst : step w (.addAll i i) = w.set i ⟨a.p, a.ws, a.items ++ a.items⟩ := by
+      simp [step, stepWith, hi, hc]
+    rw [hst]
+    refine ⟨?_, by simp⟩
+    unfold bytesAt
+    by_cases hk : i = k
+    · subst hk
+      have hlt : i < w.length := by
+        rcases Nat.lt_or_ge i w.length with h | h
+        · exact h
+        · rw [List.getElem?_eq_none h] at hi; cases hi
+      rw [List.getElem?_set_self hlt, hi]
+      rfl
+    · rw [List.getElem?_set_ne hk]
+
+/-- every counter a history reaches — offered to, merged into, result of `Merge`, rebuilt — holds
+    register values 0 … 33 − p only (so `Cardinality` meets no other value, on any of them) -/
+theorem history_register_range (ops : List HOp) (hops : ∀ op ∈ ops, OpOK op) (c : Counter)
+    (hc : c ∈ run ops) (r : Nat) : regGet c.ws r ≤ 33 - c.p := by
+  have ci := run_inv ops hops c hc
+  rw [ci.state]
+  exact (register_value_range c.p ci.prec).1 c.items r ci.hashed
+
+/-- a history may contain `a.AddAll(a)` anywhere: the operation is defined (the model's `step` is
+    total), changes no counter's bytes and creates nothing — for every world a history reaches -/
+theorem addAll_self_in_histories (ops : List HOp) (hops : ∀ op ∈ ops, OpOK op) (i k : Nat) :
+    bytesAt (step (run ops) (.addAll i i)) k = bytesAt (run ops) k ∧
+    (step (run ops) (.addAll i i)).length = (run ops).length :=
+  addAll_self_noop (run ops) i k (run_inv ops hops)
+
 /-! ### non-vacuity -/
 
 example : PrecOK 4 ∧ PrecOK 10 ∧ PrecOK 16 := ⟨⟨by decide, by decide⟩, ⟨by decide, by decide⟩, ⟨by decide, by decide⟩⟩
@@ -561,5 +639,16 @@ example : argsOK (run [.new 4, .offer 0 4026531840, .new 4, .offer 1 7]) 4 [1, 0
 example : argsOK (run [.new 4, .new 5]) 4 [1] = false := by decide +kernel
 example : (run [.new 4, .new 5, .addAll 0 1]).length = 2 ∧ (run [.new 4, .new 5, .merge 0 [1]]).length = 2 := by
   decide +kernel
+
+example : regGet (stateOf 16 [murmurLong 0]) 0 = 17 := (register_value_range 16 ⟨by decide, by decide⟩).2.2.2
+example : (∀ op ∈ [HOp.new 4, .offer 0 0], OpOK op) ∧ ((run [.new 4, .offer 0 0]).map (fun c => regGet c.ws 0)) = [29] := by
+  refine ⟨?_, by decide +kernel⟩
+  intro op h; simp at h; rcases h with rfl | rfl
+  · exact ⟨by decide, by decide⟩
+  · show (0 : Nat) < 4294967296; decide
+example : histSum 3 [0, 3, 3, 1] = 2 ^ 31 + 2 ^ 30 + 2 * 2 ^ 28 := by decide
+example : bytesAt (step (run [.new 4, .offer 0 4026531840]) (.addAll 0 0)) 0 = bytesAt (run [.new 4, .offer 0 4026531840]) 0 :=
+  (addAll_self_in_histories [.new 4, .offer 0 4026531840]
+    (by intro op h; simp at h; rcases h with rfl | rfl <;> simp [OpOK, Hashed] <;> exact ⟨by decide, by decide⟩) 0 0).1
 
 end C14
